@@ -219,4 +219,211 @@ theorem discard_interp (env : Env) (s e : String) : ∀ (ts : List Tok) (level F
             · simpa [interp, pure] using hw
             · exact SameParse.trans hsame hsp
 
+/-! ### token-driven loops: `while True: tok = self.lex.token(); <pure step>` -/
+
+def Tok.tv (t : Tok) : String × String := (t.type, t.value)
+def CTok.tv (t : CTok) : String × String := (t.type, t.value)
+
+theorem Yields.snoc {cfg : LexCfg} {b b' b'' : Buf} {ts : List Tok} {t : Tok}
+    (h1 : Yields cfg b ts b') (h2 : tokenEofOk cfg b' = .ok (some t, b'')) : Yields cfg b (ts ++ [t]) b'' := by
+  induction h1 with
+  | nil b => exact .cons h2 (.nil _)
+  | cons htok _ ih => exact .cons htok (ih h2)
+
+theorem Yields.append {cfg : LexCfg} {b b' b'' : Buf} {ts us : List Tok}
+    (h1 : Yields cfg b ts b') (h2 : Yields cfg b' us b'') : Yields cfg b (ts ++ us) b'' := by
+  induction h1 with
+  | nil b => exact h2
+  | cons htok _ ih => exact .cons htok (ih h2)
+
+/-- the tokens `cts` drive the pure step function from state `s` to the final result `a` -/
+inductive RunsTo {σ α : Type} (step : σ → CTok → Except Err (σ ⊕ α)) : σ → List CTok → α → Prop
+  | last {s : σ} {c : CTok} {a : α} : step s c = .ok (.inr a) → RunsTo step s [c] a
+  | more {s s' : σ} {c : CTok} {cs : List CTok} {a : α} :
+      step s c = .ok (.inl s') → RunsTo step s' cs a → RunsTo step s (c :: cs) a
+
+theorem interp_liftE (env : Env) {α : Type} (r : Except Err α) (w : World) : interp env (P.liftE r) w = (w, r) := by
+  cases r <;> rfl
+
+/-- A loop that reads one token per iteration and decides with a pure function ends normally
+    only like this: the stream yielded some tokens `ts`, the loop saw exactly those (same type
+    and text, in order), the step function run over them gives the result, the stream is
+    right after them and nothing else of the parser state changed. -/
+theorem tokLoop_contiguous (env : Env) {σ α : Type} (step : σ → CTok → Except Err (σ ⊕ α)) :
+    ∀ (F : Nat) (s : σ) (w w' : World) (a : α),
+    interp env (P.loopN F s (fun s => do let tok ← P.token; P.liftE (step s tok))) w = (w', .ok a) →
+    ∃ (ts : List Tok) (cts : List CTok), Yields env.cfg w.buf ts w'.buf ∧ SameParse w w' ∧
+      cts.map CTok.tv = ts.map Tok.tv ∧ RunsTo step s cts a := by
+  intro F
+  induction F with
+  | zero => intro s w w' a h; simp [P.loopN, interp] at h
+  | succ F ih =>
+    intro s w w' a h
+    simp only [P.loopN, bind, interp_bind, interp_token] at h
+    cases htok : tokenEofOk env.cfg w.buf with
+    | error e => simp [htok] at h
+    | ok r =>
+      obtain ⟨o, b1⟩ := r
+      cases o with
+      | none => simp [htok] at h
+      | some t =>
+        simp only [htok, interp_liftE] at h
+        have hho := handOut_same ({ w with buf := b1 } : World) t
+        obtain ⟨hsame0, hbuf, hty, hval⟩ := hho
+        have hsame := (SameParse.setBuf w b1).trans hsame0
+        cases hstep : step s (({ w with buf := b1 } : World).handOut t).1 with
+        | error e => simp [hstep] at h
+        | ok r =>
+          cases r with
+          | inr a' =>
+            simp only [hstep, interp, Prod.mk.injEq, Except.ok.injEq] at h
+            obtain ⟨hw, ha⟩ := h
+            subst hw; subst ha
+            refine ⟨[t], [(({ w with buf := b1 } : World).handOut t).1], ?_, hsame, ?_, .last hstep⟩
+            · exact .cons htok (by rw [hbuf]; exact .nil _)
+            · simp [CTok.tv, Tok.tv, hty, hval]
+          | inl s' =>
+            simp only [hstep] at h
+            obtain ⟨ts, cts, hy, hsp, htv, hr⟩ := ih s' _ w' a h
+            refine ⟨t :: ts, (({ w with buf := b1 } : World).handOut t).1 :: cts, ?_, hsame.trans hsp, ?_, .more hstep hr⟩
+            · exact .cons htok (by rw [hbuf] at hy; exact hy)
+            · simp [CTok.tv, Tok.tv, hty, hval, htv] at htv ⊢
+
+/-! ### `_consume_balanced_tokens` -/
+
+theorem balStep_consumed (st : List CTok × List String) (tok : CTok) :
+    (∀ st', P.balStep st tok = .ok (.inl st') → st'.1 = st.1 ++ [tok]) ∧
+    (∀ r, P.balStep st tok = .ok (.inr r) → r = st.1 ++ [tok]) := by
+  unfold P.balStep
+  constructor
+  · intro st' h
+    dsimp only at h
+    repeat' (split at h)
+    all_goals (first | (simp at h; done) | (simp at h; rw [← h]))
+  · intro r h
+    dsimp only at h
+    repeat' (split at h)
+    all_goals (first | (simp at h; done) | (simp at h; exact h.symm))
+
+theorem runsTo_balStep (st : List CTok × List String) (cts : List CTok) (res : List CTok)
+    (h : RunsTo P.balStep st cts res) : res = st.1 ++ cts := by
+  induction h with
+  | last hs => exact (balStep_consumed _ _).2 _ hs
+  | more hs _ ih => rw [ih, (balStep_consumed _ _).1 _ hs]; simp
+
+/-- `_consume_balanced_tokens` returns its initial tokens followed by exactly the tokens it
+    took from the stream, in stream order, and leaves the stream right after the last one. -/
+theorem consumeBalanced_contiguous (env : Env) (F : Nat) (init : List CTok) (w w' : World) (res : List CTok)
+    (h : interp env (P.consumeBalancedTokens F init) w = (w', .ok res)) :
+    ∃ (ts : List Tok) (cts : List CTok), Yields env.cfg w.buf ts w'.buf ∧ SameParse w w' ∧
+      cts.map CTok.tv = ts.map Tok.tv ∧ res = init ++ cts := by
+  unfold P.consumeBalancedTokens at h
+  obtain ⟨ts, cts, hy, hsp, htv, hr⟩ := tokLoop_contiguous env P.balStep F _ w w' res h
+  exact ⟨ts, cts, hy, hsp, htv, runsTo_balStep _ _ _ hr⟩
+
+/-! ### `_consume_value_until` -/
+
+/-- the stream state after a look-ahead from `b`: end of input was seen, or one token was read
+    and pushed back -/
+inductive Peeked (cfg : LexCfg) (b : Buf) : Buf → Prop
+  | eof {b' : Buf} : tokenEofOk cfg b = .ok (none, b') → Peeked cfg b b'
+  | back {t t' : Tok} {b2 : Buf} : tokenEofOk cfg b = .ok (some t, b2) → t'.tv = t.tv →
+      Peeked cfg b (Cxx.returnToken t' b2)
+
+theorem interp_tokenIfP (env : Env) (p : CTok → Bool) (w : World) :
+    interp env (P.tokenIfP p) w =
+      match tokenEofOk env.cfg w.buf with
+      | .error e => (w, .error e)
+      | .ok (none, b) => ({ w with buf := b }, .ok none)
+      | .ok (some t, b) =>
+        let w1 := ({ w with buf := b } : World).handOut t
+        if p w1.1 then (w1.2, .ok (some w1.1))
+        else ({ w1.2 with buf := Cxx.returnTokens ([w1.1].map w1.2.toTok) w1.2.buf }, .ok none) := by
+  unfold P.tokenIfP P.tokenEofOk P.returnToken
+  simp only [bind, Prog.bind, interp, Bool.false_eq_true, ↓reduceIte]
+  cases h : tokenEofOk env.cfg w.buf with
+  | error e => rfl
+  | ok r =>
+    obtain ⟨o, b⟩ := r
+    cases o with
+    | none => rfl
+    | some t =>
+      simp only
+      split <;> rfl
+
+/-- `_consume_value_until` returns the tokens it was given followed by exactly the tokens it
+    took from the stream, in stream order; the stream is left at a look-ahead right after them
+    (the terminator, or end of input, was only peeked). -/
+theorem consumeValueUntil_contiguous (env : Env) (types : List String) : ∀ (F : Nat) (rtoks : List CTok) (w w' : World) (res : List CTok),
+    interp env (P.consumeValueUntil F rtoks types) w = (w', .ok res) →
+    ∃ (ts : List Tok) (cts : List CTok) (bmid : Buf), Yields env.cfg w.buf ts bmid ∧ Peeked env.cfg bmid w'.buf ∧
+      SameParse w w' ∧ cts.map CTok.tv = ts.map Tok.tv ∧ res = rtoks ++ cts := by
+  intro F
+  -- the inner `_consume_balanced_tokens` uses the same fuel: generalise it
+  suffices hgen : ∀ (G F : Nat) (rtoks : List CTok) (w w' : World) (res : List CTok),
+      interp env (P.loopN F rtoks (fun rtoks => do
+        match (← P.tokenIfNot types) with
+        | none => pure (.inr rtoks)
+        | some tok =>
+          if P.isBalancedStart tok.type then do
+            let more ← P.consumeBalancedTokens G [tok]
+            pure (.inl (rtoks ++ more))
+          else pure (.inl (rtoks ++ [tok])))) w = (w', .ok res) →
+      ∃ (ts : List Tok) (cts : List CTok) (bmid : Buf), Yields env.cfg w.buf ts bmid ∧ Peeked env.cfg bmid w'.buf ∧
+        SameParse w w' ∧ cts.map CTok.tv = ts.map Tok.tv ∧ res = rtoks ++ cts from
+    fun rtoks w w' res h => hgen F F rtoks w w' res h
+  intro G F
+  induction F with
+  | zero => intro rtoks w w' res h; simp [P.loopN, interp] at h
+  | succ F ih =>
+    intro rtoks w w' res h
+    simp only [P.loopN, bind, interp_bind, P.tokenIfNot, interp_tokenIfP] at h
+    cases htok : tokenEofOk env.cfg w.buf with
+    | error e => simp [htok] at h
+    | ok r =>
+      obtain ⟨o, b1⟩ := r
+      cases o with
+      | none =>
+        simp only [htok, pure, interp, Prod.mk.injEq, Except.ok.injEq] at h
+        obtain ⟨hw, hr⟩ := h
+        subst hw; subst hr
+        exact ⟨[], [], w.buf, .nil _, .eof htok, SameParse.setBuf w b1, rfl, by simp⟩
+      | some t =>
+        simp only [htok] at h
+        have hho := handOut_same ({ w with buf := b1 } : World) t
+        obtain ⟨hsame0, hbuf, hty, hval⟩ := hho
+        have hsame := (SameParse.setBuf w b1).trans hsame0
+        by_cases hp : (!types.contains (({ w with buf := b1 } : World).handOut t).1.type) = true
+        · simp only [hp, ↓reduceIte] at h
+          by_cases hb : P.isBalancedStart (({ w with buf := b1 } : World).handOut t).1.type = true
+          · simp only [hb, ↓reduceIte, interp_bind] at h
+            cases hcb : interp env (P.consumeBalancedTokens G [(({ w with buf := b1 } : World).handOut t).1])
+                (({ w with buf := b1 } : World).handOut t).2 with
+            | mk w2 r2 =>
+              cases r2 with
+              | error e => simp [hcb] at h
+              | ok more =>
+                simp only [hcb, pure, interp] at h
+                obtain ⟨ts2, cts2, hy2, hsp2, htv2, hm⟩ := consumeBalanced_contiguous env G _ _ w2 more hcb
+                obtain ⟨ts3, cts3, bmid, hy3, hpk, hsp3, htv3, hres⟩ := ih _ w2 w' res h
+                refine ⟨t :: (ts2 ++ ts3), (({ w with buf := b1 } : World).handOut t).1 :: (cts2 ++ cts3), bmid, ?_, hpk,
+                  (hsame.trans hsp2).trans hsp3, ?_, ?_⟩
+                · exact .cons htok (Yields.append (by rw [hbuf] at hy2; exact hy2) hy3)
+                · simp [CTok.tv, Tok.tv, hty, hval] at htv2 htv3 ⊢; simp [htv2, htv3]
+                · rw [hres, hm]; simp
+          · simp only [hb, Bool.false_eq_true, ↓reduceIte, pure, interp] at h
+            obtain ⟨ts3, cts3, bmid, hy3, hpk, hsp3, htv3, hres⟩ := ih _ _ w' res h
+            refine ⟨t :: ts3, (({ w with buf := b1 } : World).handOut t).1 :: cts3, bmid, ?_, hpk, hsame.trans hsp3, ?_, ?_⟩
+            · exact .cons htok (by rw [hbuf] at hy3; exact hy3)
+            · simp [CTok.tv, Tok.tv, hty, hval] at htv3 ⊢; exact htv3
+            · rw [hres]; simp
+        · simp only [hp, Bool.false_eq_true, ↓reduceIte, pure, interp, Prod.mk.injEq, Except.ok.injEq] at h
+          obtain ⟨hw, hr⟩ := h
+          subst hw; subst hr
+          refine ⟨[], [], w.buf, .nil _, ?_, ?_, rfl, by simp⟩
+          · simp only [List.map_cons, List.map_nil, Cxx.returnTokens, List.singleton_append]
+            rw [hbuf]
+            exact .back (t' := _) htok (by simp [Tok.tv, World.toTok, hty, hval])
+          · exact hsame.trans (SameParse.setBuf _ _)
+
 end Cxx
